@@ -63,6 +63,18 @@ def make_model(name):
 
 
 def run_nlc(case, ctx):
+    # one case in four runs under scikit-learn's process-wide transform_output="pandas" (set once at the top of a
+    # notebook): the function still returns its matrices
+    import sklearn
+    if case["sub"] % 4 == 1:
+        ctx.cls("sklearn.transform_output=pandas")
+        with sklearn.config_context(transform_output="pandas"):
+            ctx.hit("nlc.under_transform_output_pandas")
+            return _run_nlc(case, ctx)
+    return _run_nlc(case, ctx)
+
+
+def _run_nlc(case, ctx):
     import pandas
     from mlinsights.metrics import non_linear_correlations
     rng = numpy.random.RandomState(case["sub"] % (2 ** 31))
@@ -72,6 +84,8 @@ def run_nlc(case, ctx):
     d = X.shape[1]
     draws = int(rng.randint(1, 6))
     cols = ["v%d" % i for i in range(d)] if case["sub"] % 2 else ["b", "a", "zz", "c", "y", "k"][:d]
+    if case["sub"] % 7 == 2:
+        cols = [0, "b", 2, "d", 4, "f"][:d]       # labels of mixed types (positions and names): still one per variable
     if case["sub"] % 5 == 3:
         X[:, 0] = X[:, 0].astype(numpy.float32)      # representable: the frame below stores this column as float32
     df = pandas.DataFrame(X.copy(), columns=cols)
@@ -347,6 +361,41 @@ def run_r2(case, ctx):
                 ctx.violation("C18/r2/differs-from-r2_score/stateful-pair", "tr learns a scaling on the targets that "
                               "inv_tr applies to the predictions: got %r, r2_score(f(y), g(p)) = %r" % (got, exp),
                               n=n, used_before=used_before)
+    # targets / predictions held in pandas containers, with transformations written for them (Series.std has ddof=1, a
+    # frame's sum is per column, rank and clip are Series methods): f and g receive what the caller gave
+    import pandas
+    idx = numpy.random.RandomState(case["sub"] % 991).permutation(n) + 5
+    ys = pandas.Series(y, index=idx) if not multi else pandas.DataFrame(y, columns=["t0", "t1"], index=idx)
+    ps = pandas.Series(p, index=idx) if not multi else pandas.DataFrame(p, columns=["t0", "t1"], index=idx)
+
+    def zscore(a):
+        return (a - a.mean()) / a.std()
+
+    def share(a):
+        return a / a.sum()
+
+    def ranks(a):
+        return a.rank()
+
+    for fname, f in (("zscore", zscore), ("share", share), ("ranks", ranks)):
+        for which in ("tr", "inv_tr"):
+            cfgp = {"container": "pandas", "function": fname, "given_as": which, "n": n, "multi": multi}
+            try:
+                if which == "tr":
+                    got = r2_score_comparable(ys, ps, tr=f, multioutput=mo)
+                    exp = r2_score(f(ys), ps, multioutput=mo)
+                else:
+                    got = r2_score_comparable(ys, ps, inv_tr=f, multioutput=mo)
+                    exp = r2_score(ys, f(ps), multioutput=mo)
+            except Exception as e:
+                ctx.hit("r2.pandas_containers")
+                ctx.violation("C18/r2/raised/%s/pandas-containers" % type(e).__name__, "%s=%s on pandas targets: %s" % (
+                    which, fname, str(e)[:120]), **cfgp)
+                continue
+            ctx.hit("r2.pandas_containers")
+            if not numpy.allclose(got, exp, rtol=1e-12, atol=1e-12):
+                ctx.violation("C18/r2/differs-from-r2_score/pandas-containers", "targets and predictions given as pandas "
+                              "objects, %s=%s: %r, r2_score(f(y), g(p)) = %r" % (which, fname, got, exp), **cfgp)
     ctx.check(numpy.array_equal(y, yk) and numpy.array_equal(p, pk), "C18/r2/input-modified", "inputs modified")
     ctx.cls("r2")
 
